@@ -129,12 +129,20 @@ fn observe(tokens: &[&str]) -> String {
             .env("SOURCE_DATE_EPOCH", format!("{}", [1_650_000_000u32, 1_234_567_890, 1_800_000_000, 0][i % 4]))
             .env("USER", ["alice", "root"][i % 2]).env("LOGNAME", ["alice", "root"][i % 2])
             .env("HOSTNAME", format!("builder{}.example", i)).env("RPM_BUILD_NCPUS", format!("{}", i + 1))
-            .current_dir(&verif);
+            // … and from another working directory each (nothing the build reads or writes is relative to it but its scratch files)
+            .current_dir(&{
+                let d = if i == 0 { verif.clone() } else { verif.join(format!("work/c11-cwd-{}-{}/deeper/still", std::process::id(), i)) };
+                let _ = std::fs::create_dir_all(&d);
+                d
+            });
         match cmd.output() {
             Ok(o) => child_fnv.push(String::from_utf8_lossy(&o.stdout).trim().to_string()),
             Err(_) => child_fnv.push("spawn-failed".into()),
         }
     }
+    let _ = std::fs::remove_dir_all(verif.join(format!("work/c11-cwd-{}-1", std::process::id())));
+    let _ = std::fs::remove_dir_all(verif.join(format!("work/c11-cwd-{}-2", std::process::id())));
+    let _ = std::fs::remove_dir_all(verif.join(format!("work/c11-cwd-{}-3", std::process::id())));
     let first = &all[0];
     let mut ids: Vec<String> = all.iter().map(|b| format!("{:016x}", fnv(b))).collect();
     ids.extend(child_fnv);
@@ -144,7 +152,7 @@ fn observe(tokens: &[&str]) -> String {
     let p = match rpm::Package::parse(&mut &first[..]) { Ok(p) => p, Err(_) => return "err-reparse".into() };
     let o = p.metadata.get_package_segment_offsets();
     let (h, pl) = (o.header as usize, o.payload as usize);
-    let kind = tokens.iter().find_map(|t| t.strip_prefix("c=")).map(|c| c.split(':').next().unwrap()).unwrap_or(crate::bld::default_comp_kind());
+    let kind = crate::bld::comp_kind(tokens);
     let arch = decompress(kind, &first[pl..]);
     let mt = p.metadata.get_file_entries().map(|v| v.iter().map(|f| f.modified_at.0).max().unwrap_or(0)).unwrap_or(0);
     let cmt = arch.as_ref().map(|a| max_cpio_mtime(a)).unwrap_or("-".into());
@@ -198,6 +206,13 @@ pub fn gen(ctx: &mut Ctx) {
         if i % 29 == 3 { extra.push_str(" sign=R"); }
         extra.push_str(&format!(" children={}", if ctx.thorough { 4 } else { 2 }));
         ctx.req(&format!("repro {}{}", cfg, extra));
+        if i % 8 == 6 {
+            // a source date in the FUTURE of every clock used (a skewed clock, a tag dated ahead): build time and signature time
+            // are the clock's then (`_ => now`), still not later than the source date; the runs differ in exactly that time
+            let toks: Vec<&str> = cfg.split(' ').collect();
+            let fut = *ctx.rng.pick(&[1_800_000_000u32, 1_700_900_000, u32::MAX]);
+            ctx.req(&format!("repro {} sd={} now=1700000000{} children=2", toks.join(" "), fut, if i % 16 == 6 { " sign=E" } else { "" }));
+        }
         if i % 16 == 5 {
             // the same configuration with a source date that cannot be represented (before 1970)
             let toks: Vec<&str> = cfg.split(' ').collect();
